@@ -462,3 +462,35 @@ Definition run_enc_with (inp : list Z) : list Z :=
       end
   | [] => bad_input
   end.
+
+(* ---- component of C12: merge_tracks ---- *)
+Require Import Mido.Model.Tracks.
+Fixpoint in_pairs (n : nat) (l : list Z) : option (list (Z * bool) * list Z) :=
+  match n with
+  | O => Some ([], l)
+  | S k => match l with
+           | t :: b :: r => match in_pairs k r with Some (ps, r') => Some ((t, negb (b =? 0)) :: ps, r') | None => None end
+           | _ => None
+           end
+  end.
+Fixpoint in_ptracks (n : nat) (l : list Z) : option (list (list (Z * bool)) * list Z) :=
+  match n with
+  | O => Some ([], l)
+  | S k => match l with
+           | c :: r => match in_pairs (Z.to_nat c) r with
+                       | Some (tr, r') => match in_ptracks k r' with Some (trs, r'') => Some (tr :: trs, r'') | None => None end
+                       | None => None
+                       end
+           | [] => None
+           end
+  end.
+Definition run_merge (inp : list Z) : list Z :=
+  match inp with
+  | n :: r => match in_ptracks (Z.to_nat n) r with
+              | Some (ts, []) =>
+                  let m := merge_tracks (label_tracks 0 ts) in
+                  zlen m :: flat_map (fun e => [time e; if eot e then 1 else 0; Z.of_nat (trk e); Z.of_nat (idx e)]) m
+              | _ => bad_input
+              end
+  | [] => bad_input
+  end.
